@@ -639,3 +639,109 @@ def pipeline_render_nonexpr(cfg, where):
     except Exception as e:
         got = "raised %s: %s" % (type(e).__name__, e)
     return (got, expected)
+
+
+# ------------------------------------------------------------------ C12: warnings raised while a template is compiled / its module code runs
+_WARN_POS = {
+    # position: (template lines with the warning-triggering literal; 1-based index of the line holding it)
+    "code-block": (["<%", "    x = 1", "    y = \"\\d\"", "%>"], 3),
+    "code-block-first-line": (["<% y = \"\\d\" %>"], 1),
+    "module-block": (["<%!", "    y = \"\\d\"", "%>"], 2),
+    "expression": (["text ${\"\\d\"} text"], 1),
+    "multi-line-expression": (["${(1,", "   \"\\d\")}"], 2),
+    "control-line": (["% if \"\\d\":", "x", "% endif"], 1),
+    "def-default": (["<%def name=\"d(a='\\d')\">x</%def>"], 1),
+    "module-code-runs": (["<%!", "    import warnings", "    warnings.warn(\"module body\", UserWarning)", "%>"], 3),
+}
+
+
+def warning_probe(position, source, action, lead):
+    """compile one template holding one warning-triggering construct, through one construction path, under one warnings filter;
+    returns (list of (where, lineno) of the warnings shown, (where, lineno) expected once)"""
+    import os
+    import shutil
+    import tempfile
+    import time
+    import warnings
+    from mako.template import Template
+    from mako.lookup import TemplateLookup
+    from mako import codegen
+    lines, k = _WARN_POS[position]
+    text = "\n".join(["filler"] * lead + lines + ["end"]) + "\n"
+    want_line = lead + k
+    if position == "multi-line-expression":
+        want_line = lead + 1           # otherwise than for blocks, a construct is reported at the line on which it begins
+    base = tempfile.mkdtemp(prefix="c12warn")
+    try:
+        fn = os.path.join(base, "warning.mako")
+        with open(fn, "w") as f:
+            f.write(text)
+        moddir = os.path.join(base, "modules")
+        shown_as = [fn]
+
+        def build():
+            if source == "string":
+                t = Template(text)
+                shown_as[0] = t.uri
+            elif source == "string-with-uri":
+                t = Template(text, uri="/some/uri.html")
+                shown_as[0] = "/some/uri.html"
+            elif source == "file":
+                Template(filename=fn)
+            elif source == "lookup":
+                TemplateLookup([base]).get_template("warning.mako")
+            elif source == "lookup-module-directory":
+                TemplateLookup([base], module_directory=moddir).get_template("warning.mako")
+            else:
+                Template(filename=fn, module_directory=moddir)
+
+        if source in ("module-file-reload", "module-file-stale-magic"):
+            # a module file already exists: up to date, or written by another release (different magic number, newer than the template)
+            with warnings.catch_warnings():
+                warnings.simplefilter("ignore")
+                Template(filename=fn, module_directory=moddir)
+            if source == "module-file-stale-magic":
+                for root, _d, files in os.walk(moddir):
+                    for name in files:
+                        if name.endswith(".py"):
+                            p = os.path.join(root, name)
+                            src = open(p).read().replace("_magic_number = %r" % codegen.MAGIC_NUMBER, "_magic_number = %r" % (codegen.MAGIC_NUMBER - 1))
+                            open(p, "w").write(src)
+                            os.utime(p, (time.time() + 5, time.time() + 5))
+        with warnings.catch_warnings(record=True) as rec:
+            warnings.simplefilter(action)
+            build()
+        got = [("<template>" if w.filename == shown_as[0] else os.path.basename(str(w.filename)), w.lineno) for w in rec]
+        return got, ("<template>", want_line)
+    finally:
+        shutil.rmtree(base, ignore_errors=True)
+
+
+def runtime_error_display(prefix):
+    """a real template = `prefix` + a raising expression on a line of its own: what the HTML and text error templates show for the
+    template frame: dict(line=expected line, html=(shown lines, index of the highlighted one), text=(reported line number, source line))"""
+    import re
+    import sys
+    from mako import exceptions
+    from mako.template import Template
+    tmpl = prefix + "\n${1/0} MARK\nafter"
+    want = prefix.count("\n") + 2
+    try:
+        Template(tmpl, filename="/t/page.html").render()
+        return None
+    except ZeroDivisionError:
+        saved = (exceptions.syntax_highlight, exceptions.pygments_html_formatter)
+        exceptions.syntax_highlight = lambda filename="", language=None: (lambda s: "@@B@@" + s + "@@E@@")
+        exceptions.pygments_html_formatter = None
+        try:
+            html = exceptions.html_error_template().render_unicode(full=False, css=False)
+            text = exceptions.text_error_template().render_unicode()
+        finally:
+            exceptions.syntax_highlight, exceptions.pygments_html_formatter = saved
+    sample = html.split('<div class="stacktrace">')[0]
+    shown = re.findall("@@B@@(.*?)@@E@@", sample, re.S)
+    # without pygments the page marks nothing: the line for `want` sits at this index of the excerpt (lines want-3 .. want+5)
+    idx = (want - 1) - max(0, want - 4)
+    hl = [shown[idx]] if 0 <= idx < len(shown) else []
+    m = re.search(r'File "/t/page.html", line (\d+), in render_body\n\s*(.*)', text)
+    return dict(line=want, html_shown=shown, html_highlighted=hl, text=(int(m.group(1)), m.group(2)) if m else None)
